@@ -19,7 +19,7 @@ claimed.update({
    note="Trusted: as C01, plus the reference packetiser/classifier (harness/oracle). Parameter sets are never fragmented and precede their key frame in generated streams (stated in evidence)."),
  "C04": dict(level="exploration", ref="§5 C04",
    text="1300-4000 packet streams with key-frame spacing from 1 to 400 (and none), a pacing-protected healthy consumer, a consumer blocked inside Consume for tape-chosen phases or for ever, and a panicking consumer; invariants after every publish (backlog <= 1000 + one GOP) and at the end (healthy got everything, drops begin at a key-frame packet and end before one, GOPs published below the limit are delivered whole, panicker detached and closed).",
-   note="Trusted: as C01. The limit 1000 is taken from the property text. Stalls are modelled at the Consumer interface, not on a socket."),
+   note="Trusted: as C01. The limit 1000 is taken from the property text. In the media family stalls are modelled at the Consumer interface; the service family adds real clients that stop reading on a simulated socket (RTSP/TCP, HTTP-FLV) and requires the publisher and every other real client to be unaffected."),
  "C05": dict(level="exploration", ref="§5 C05",
    text="2-3 actors issuing register / unregister / lookup / attach / stop over two paths in many spellings with schedule points inside Regist and Unregist; recorded history checked for linearizability with porcupine against a sequential registry model, quiescent Count/Infos/lookup observations, and an end-of-run oracle after 16 simulated minutes for retirement and idle-close (simsched jobs on the fake clock).",
    note="Trusted: as C01, porcupine v1.3.0, the sequential model in scen/c05.go. Count/Infos are only observed at quiescent points. The api family drives DELETE /api/v1/streams/{path}, listings and real publisher/player sessions through the real mux."),
